@@ -44,6 +44,14 @@ func (rt *Transfer) deleteFiles(fileList []*File) error {
 			if findInFileList(fileList, path) {
 				return nil
 			}
+			if rt.Excluded != nil && path != "." && rt.Excluded(path) {
+				// excluded entries are protected from deletion
+				// (the sender did not consider them either)
+				if info != nil && info.IsDir() {
+					return fs.SkipDir
+				}
+				return nil
+			}
 			if rt.Opts.Verbose {
 				rt.Logger.Printf("  deleting %s", path)
 			}
